@@ -8,6 +8,8 @@ import (
 	"os"
 	"path/filepath"
 	"strconv"
+	"strings"
+	"sync"
 	"time"
 
 	"verif/harness/internal/core"
@@ -15,9 +17,47 @@ import (
 	"verif/harness/internal/tlc"
 )
 
-// specDirs: spec/heap EXTENDS the modules of spec/sem.
+var (
+	snapMu  sync.Mutex
+	snapDir = map[string]string{} // work dir -> snapshot of the specifications
+)
+
+// specDirs: spec/heap EXTENDS the modules of spec/sem. Both are snapshotted
+// into the work directory at the first use, so that every TLC run of one check
+// run (export, model check, validation, shrinking) sees the same modules even
+// if the files are edited meanwhile.
 func specDirs(c *core.Ctx) []string {
-	return []string{engs.SpecDir(c), filepath.Join(c.Verif, "spec", "heap")}
+	snapMu.Lock()
+	defer snapMu.Unlock()
+	if d, ok := snapDir[c.Work]; ok {
+		return []string{d}
+	}
+	live := []string{engs.SpecDir(c), filepath.Join(c.Verif, "spec", "heap")}
+	d := filepath.Join(c.Work, "spec-snapshot")
+	if err := os.MkdirAll(d, 0755); err != nil {
+		return live
+	}
+	for _, src := range live {
+		ents, err := os.ReadDir(src)
+		if err != nil {
+			return live
+		}
+		for _, e := range ents {
+			n := e.Name()
+			if e.IsDir() || !(strings.HasSuffix(n, ".tla") || strings.HasSuffix(n, ".cfg")) {
+				continue
+			}
+			data, err := os.ReadFile(filepath.Join(src, n))
+			if err != nil {
+				return live
+			}
+			if err := os.WriteFile(filepath.Join(d, n), data, 0644); err != nil {
+				return live
+			}
+		}
+	}
+	snapDir[c.Work] = d
+	return []string{d}
 }
 
 func par() int {
